@@ -13,6 +13,155 @@ import (
 type Move struct {
 	Kind string `json:"k"`
 	A    int    `json:"a,omitempty"`
+	// B (for "inorder", 0 = none) selects moves that the loop body of the
+	// cursor's Inorder applies to a cursor while keys are being delivered: to
+	// the iterated cursor itself or to a Clone of it, at the first, a middle,
+	// the last or every visit.
+	B int `json:"b,omitempty"`
+}
+
+// bodyMoveKinds are the moves a loop body applies (see Move.B).
+var bodyMoveKinds = []string{"min", "next", "up", "left", "max", "prev", "right", "next", "prev", "up"}
+
+// step applies one plain move to cc and returns the position the reference
+// model gives for it (p is the position before).
+func (r *cursorRun[T]) step(cc *stree.Cursor[T], p int, kind string) (ret *stree.Cursor[T], np int) {
+	np = p
+	switch kind {
+	case "left":
+		ret = cc.Left()
+		if p >= 0 {
+			np = r.sh.nodes[p].left
+		}
+	case "right":
+		ret = cc.Right()
+		if p >= 0 {
+			np = r.sh.nodes[p].right
+		}
+	case "up":
+		ret = cc.Up()
+		if p >= 0 {
+			np = r.sh.nodes[p].parent
+		}
+	case "min":
+		ret = cc.Min()
+		if p >= 0 {
+			np = r.sh.byK[r.keys[r.sh.nodes[p].lo].K]
+		}
+	case "max":
+		ret = cc.Max()
+		if p >= 0 {
+			np = r.sh.byK[r.keys[r.sh.nodes[p].hi-1].K]
+		}
+	case "next":
+		ret = cc.Next()
+		if p >= 0 {
+			np = r.succ(p)
+		}
+	case "prev":
+		ret = cc.Prev()
+		if p >= 0 {
+			np = r.pred(p)
+		}
+	}
+	return ret, np
+}
+
+// inorderMoving ranges over cc.Inorder with a loop body that MOVES a cursor
+// while keys are delivered: cc itself, or (sel bit) a Clone of cc while cc is
+// iterated, or cc while its Clone is iterated.  Inorder lists the subtree of
+// the position the iterated cursor had when Inorder was called, whatever
+// happens to the cursor afterwards ("Inorder is a range function over each key
+// of the subtree at c"); the moved cursor ends where the reference model of
+// the moves says.  It returns the new model position of cc.
+func (r *cursorRun[T]) inorderMoving(cc *stree.Cursor[T], p int, sel int, what string) (int, string) {
+	if sel <= 0 || p < 0 {
+		return p, ""
+	}
+	want := r.keys[r.sh.nodes[p].lo:r.sh.nodes[p].hi]
+	n := len(want)
+	iterated, moved := cc, cc
+	who := "the iterated cursor itself"
+	switch sel % 5 {
+	case 3:
+		moved = cc.Clone()
+		who = "a Clone of the iterated cursor"
+	case 4:
+		iterated = cc.Clone()
+		who = "the cursor whose Clone is iterated"
+	}
+	sel /= 5
+	// visits at which the body moves: first, middle (left part / own key /
+	// right part), last, or every one
+	at, every := 0, false
+	left := r.leftSize(p)
+	switch sel % 8 {
+	case 0:
+		at = 0
+	case 1:
+		at = n - 1
+	case 2:
+		at = left // the visit of the cursor's own key
+	case 3:
+		at = max(left-1, 0) // the last key of the left part
+	case 4:
+		at = sel / 8 % n
+	case 5:
+		at = sel / 8 % (left + 1) // inside the left part
+	default:
+		every = true
+	}
+	sel /= 8
+	nMoves := sel%3 + 1
+	sel /= 3
+	mp := p
+	var got []Key
+	var did []string
+	var msg string
+	idx := 0
+	for x := range iterated.Inorder {
+		got = append(got, r.tr.key(x))
+		if every || idx == at {
+			for m := 0; m < nMoves && (m == 0 || !every); m++ {
+				kind := bodyMoveKinds[(sel+idx*3+m*7)%len(bodyMoveKinds)]
+				did = append(did, kind)
+				var ret *stree.Cursor[T]
+				ret, mp = r.step(moved, mp, kind)
+				if ret != moved {
+					msg = r.errf("%s: %s inside the loop body did not return its receiver", what, kind)
+				}
+			}
+		}
+		idx++
+		if len(got) > n || msg != "" {
+			break
+		}
+	}
+	if msg != "" {
+		return p, msg
+	}
+	if len(did) > 12 {
+		did = append(did[:12], "...")
+	}
+	if !slices.Equal(got, want) {
+		return p, r.errf("%s: Inorder of a cursor at %v whose loop body moves %s (%v, first at visit %d) yields %v, want the subtree's keys %v", what, r.sh.nodes[p].key, who, did, at, got, want)
+	}
+	if msg := r.checkAt(moved, mp, fmt.Sprintf("%s: %s after the moves %v made inside the loop body of Inorder", what, who, did)); msg != "" {
+		return p, msg
+	}
+	if moved != cc {
+		// the other one of the pair has not moved
+		if msg := r.checkAt(cc, p, fmt.Sprintf("%s: the iterated cursor, after its Clone was moved (%v) inside the loop body", what, did)); msg != "" {
+			return p, msg
+		}
+		return p, ""
+	}
+	if iterated != cc {
+		if msg := r.checkAt(iterated, p, fmt.Sprintf("%s: the iterated Clone, after the original was moved (%v) inside the loop body", what, did)); msg != "" {
+			return p, msg
+		}
+	}
+	return mp, ""
 }
 
 // CursorCase builds a tree by a history and then exercises cursors on it.
@@ -403,41 +552,8 @@ func runCursorOn[T any](c CursorCase, o *vk.Obs, kit elem.Kit[T]) string {
 		what := fmt.Sprintf("move#%d %s on cursor %d", mi, mv.Kind, act)
 		var ret *stree.Cursor[T]
 		switch mv.Kind {
-		case "left":
-			ret = cc.Left()
-			if p >= 0 {
-				np = r.sh.nodes[p].left
-			}
-		case "right":
-			ret = cc.Right()
-			if p >= 0 {
-				np = r.sh.nodes[p].right
-			}
-		case "up":
-			ret = cc.Up()
-			if p >= 0 {
-				np = r.sh.nodes[p].parent
-			}
-		case "min":
-			ret = cc.Min()
-			if p >= 0 {
-				np = r.sh.byK[r.keys[r.sh.nodes[p].lo].K]
-			}
-		case "max":
-			ret = cc.Max()
-			if p >= 0 {
-				np = r.sh.byK[r.keys[r.sh.nodes[p].hi-1].K]
-			}
-		case "next":
-			ret = cc.Next()
-			if p >= 0 {
-				np = r.succ(p)
-			}
-		case "prev":
-			ret = cc.Prev()
-			if p >= 0 {
-				np = r.pred(p)
-			}
+		case "left", "right", "up", "min", "max", "next", "prev":
+			ret, np = r.step(cc, p, mv.Kind)
 		case "hasnext", "hasprev":
 			// the predicate alone (an implementation may remember what it found)
 			want := false
@@ -533,6 +649,9 @@ func runCursorOn[T any](c CursorCase, o *vk.Obs, kit elem.Kit[T]) string {
 				if wantIn := want[:len(inner)]; !slices.Equal(inner, wantIn) || (mv.A%3 != 2 && len(inner) != len(want)) {
 					return r.errf("%s: an Inorder started inside the loop body of the same cursor's Inorder yields %v, want %v", what, inner, want)
 				}
+			}
+			if np, msg = r.inorderMoving(cc, p, mv.B, what); msg != "" {
+				return msg
 			}
 			ret = cc
 		default:
